@@ -948,6 +948,7 @@ func runC07(c *hc.Ctx) error {
 	componentStream(c)
 	concurrentRepetition(c, grids)
 	bigRingsAcrossProcs(c)
+	sharedIDDeterminism(c)
 	// built-in sets whose CRS lists northing first (the point of origin is put in x,y order on every use): the same
 	// loaded set used again and again must keep giving the same answer
 	for _, name := range []string{"EuropeanETRS89_LAEAQuad", "NZTM2000Quad", "WGS1984Quad"} {
@@ -1353,6 +1354,40 @@ func runC08(c *hc.Ctx) error {
 		}
 	}
 	return nil
+}
+
+// sharedIDDeterminism: "the same polygon with the same settings returns identical geometry in every process": what a
+// set returns may not depend on which OTHER set was used before in the process, also not on one that carries the same
+// identifier (a copy of a set with an edited point of origin, loaded from a file).  The expected geometry comes from a copy
+// of the set under an identifier used by nothing else.
+func sharedIDDeterminism(c *hc.Ctx) {
+	for round := 0; round < c.N(24, 400); round++ {
+		gA, errA := newSyntheticGrid(2, 8, 32, 32)
+		gB, errB := newSyntheticGrid(2, 8, 32.0625, 32-0.1875)
+		gS, errS := newSyntheticGrid(2, 8, 32.0625, 32-0.1875)
+		if errA != nil || errB != nil || errS != nil {
+			return
+		}
+		shared := fmt.Sprintf("verif-shared-identifier-%d-%d", c.Rng.Int63(), round)
+		gA.TMS.ID, gB.TMS.ID, gS.TMS.ID = shared, shared, shared+"-solo"
+		gB.Name, gS.Name = gB.Name+" id=shared", gB.Name+" id=solo"
+		ids := randIDs(c.Rng, gB)
+		p, _ := validCaseOn(c, gB, 8)
+		q, _ := validCaseOn(c, gA, 8)
+		if !gA.inGrid(p) || !gB.inGrid(p) {
+			continue
+		}
+		cfg := randCfg(c.Rng)
+		cfg.IgnoreOutsideGrid = false
+		want := runSnap(gS, p, ids, cfg, watchdog)
+		_ = runSnap(gA, q, ids, snap.Config{IgnoreOutsideGrid: true}, watchdog)
+		got := runSnap(gB, p, ids, cfg, watchdog)
+		c.Sum.Evaluations += 2
+		c.Count("a set used after another set with the same identifier: compared with a copy under an identifier of its own")
+		if want.Panic != got.Panic || !reflect.DeepEqual(want.ByID, got.ByID) {
+			c.Violate(hc.Violation{What: "the same polygon and settings returned different geometry after another tile matrix set with the same identifier had been used in the process", Input: caseJSON(gB, p, ids, cfg, got), Expected: want.ByID, Observed: got.ByID})
+		}
+	}
 }
 
 // sameIDSets: two tile matrix sets that carry the same identifier but lie elsewhere (a copy of a set with an edited point
